@@ -169,6 +169,7 @@ impl Selector {
                     false
                 }
                 SelectorComponent::NthChild { a, b, sel } => {
+                    verif_tick!(ProbeNthChild);
                     let parent = if let Some(parent) = node.get_parent() {
                         parent
                     } else {
@@ -502,6 +503,7 @@ impl StyleData {
         ] {
             for rule in ruleset {
                 if rule.selector.matches(handle) {
+                    verif_tick!(ProbeRuleMatched);
                     for style in rule.styles.iter() {
                         Self::merge_computed_style(
                             &mut result,
